@@ -425,7 +425,7 @@ def run(tier, seed):
         rec_ = dict(base, outs=orec)
         meta = {"case": c, "shown": dict(shown, output_ops=[c20.mstr(t.operations)[:40] for t in outs],
                                          output_measurements=[c20.mstr(t.measurements) for t in outs]),
-                "key": key, "control": None, "work": None}
+                "key": key, "control": None, "work": None, "naux0": n + len([l for l in (c["devwires"] or []) if l not in labels])}
         traces.append(rec_)
         tmeta.append(meta)
         if why_not is not None or c["bad_meas"]:
@@ -576,6 +576,8 @@ def run(tier, seed):
                 bad = next((x for t in traces[i]["outs"] for x in t["ops"] if (not x["ok"]) == (cl == "unsupported-operation") and
                             (cl == "unsupported-operation" or not _on(x["w"], traces[i]["devw"]))), None)
                 what = ":" + (bad["name"] if bad else "?")
+                if bad and cl == "operation-wire-not-on-device":
+                    what += ":auxiliary-wire-added-by-the-pipeline" if any(x > meta["naux0"] for x in bad["w"] if x not in traces[i]["devw"]) else ":input-wire"
             agg.add(f"{meta['key']}:{cl}{what}", f"{meta['key']}: TLC clause {cl} (index {idx}) fails: {meta['shown']}", {"case": meta["case"], **meta["shown"]})
     need = {"operation", "wire", "measurement", "error-class", "coefficient"}
     if not need <= set(rejected_controls):
